@@ -40,6 +40,7 @@ type catchEvent struct {
 	activated       atomic.Bool
 	awaitingActions []chan IAction
 	once            sync.Once
+	started         atomic.Bool
 	satisfier       *logic.CatchEventSatisfier
 }
 
@@ -94,6 +95,12 @@ func (evt *catchEvent) run(ctx context.Context, sender tracing.ISenderHandle) {
 }
 
 func (evt *catchEvent) ConsumeEvent(ev event.IEvent) (result event.ConsumptionResult, err error) {
+	if !evt.started.Load() {
+		// No token has reached this node yet, so nobody drains its inbox: the event has no
+		// listener here and is dropped (queueing it would block the caller once the inbox is full).
+		result = event.Consumed
+		return
+	}
 	evt.mch <- processEventMessage{event: ev}
 	result = event.Consumed
 	return
@@ -103,6 +110,7 @@ func (evt *catchEvent) NextAction(ctx context.Context, flow Flow) chan IAction {
 	evt.once.Do(func() {
 		sender := evt.tracer.RegisterSender()
 		go evt.run(ctx, sender)
+		evt.started.Store(true)
 	})
 
 	response := make(chan IAction)
